@@ -244,6 +244,7 @@ func lexSegment(l *lexer) error {
 	r := l.next()
 	switch {
 	case unicode.IsLetter(r):
+		l.backup() // the first letter is part of the literal
 		return lexLiteral(l)
 	case r == '*':
 		rn := l.next()
